@@ -311,7 +311,7 @@ def run_exec(harness, requests_text, timeout):
     try:
         p = subprocess.run([harness, "exec"], input=requests_text.encode(), stdout=subprocess.PIPE,
                            stderr=subprocess.PIPE, timeout=timeout, env=exec_env())
-        status = "ok" if p.returncode == 0 else f"exit {p.returncode}"
+        status = "ok" if p.returncode == 0 else ("timeout" if p.returncode == 124 else f"exit {p.returncode}")
         return p.stdout.decode("utf-8", "replace"), status
     except subprocess.TimeoutExpired as e:
         out = e.stdout.decode("utf-8", "replace") if e.stdout else ""
